@@ -90,7 +90,12 @@ void expectedResponse(const Spec& s, const Run& R, int& code, std::string& body,
 	{
 		auto it = R.files.find(s.file);
 		const std::string& f = it->second;
-		if (s.rangeB >= 0)
+		if (s.rangeUnsat)
+		{
+			code = 416;
+			body.clear();
+		}
+		else if (s.rangeB >= 0)
 		{
 			code = 206;
 			body = f.substr((size_t)s.rangeB, (size_t)(s.rangeE - s.rangeB + 1));
@@ -113,7 +118,14 @@ void checkClient(const Spec& s, const Run& R)
 	if (!s.cIdEcho.empty() && s.cIdEcho != std::to_string(s.id))
 		sim::fail("cross_talk", "id_echo", "request %d (%s client) received the response to request %s", s.id, who, s.cIdEcho.c_str());
 	// shape of the requested range: the two edge shapes have their own keys (see known_findings.json)
-	const char* shape = s.rangeB < 0 ? "" : s.rangeE == 0 ? ";range_e_is_0" : s.rangeB == s.rangeE ? ";range_b_eq_e" : ";range";
+	const char* shape = s.rangeB < 0 ? "" : s.rangeUnsat ? ";range_unsatisfiable" : s.rangeOpen ? ";range_open" : s.rangeE == 0 ? ";range_e_is_0" : s.rangeB == s.rangeE ? ";range_b_eq_e" : ";range";
+	if (s.rangeUnsat)
+	{
+		// only "not a 2xx and no file bytes" is demanded of an unsatisfiable range
+		if (s.cCode >= 200 && s.cCode < 300)
+			sim::fail("response_mismatch", "code;file;range_unsatisfiable", "request %d (%s client, Range bytes=%ld-%ld on a shorter file) was answered with %d", s.id, who, s.rangeB, s.rangeE, s.cCode);
+		return;
+	}
 	char key[64];
 	if (s.cCode != code)
 	{
@@ -146,7 +158,7 @@ void aslClient(Spec* s)
 	for (auto& kv : s->headers)
 		h[kv.first.c_str()] = kv.second.c_str();
 	if (s->rangeB >= 0)
-		h["Range"] = asl::String::f("bytes=%li-%li", s->rangeB, s->rangeE);
+		h["Range"] = s->rangeOpen ? asl::String::f("bytes=%li-", s->rangeB) : asl::String::f("bytes=%li-%li", s->rangeB, s->rangeE);
 	asl::ByteArray body((const asl::byte*)s->body.data(), (int)s->body.size());
 	asl::HttpResponse res;
 	if (s->method == "GET")
@@ -306,6 +318,18 @@ void runHttp(const Plan& p)
 				long e = (long)biased(r, b, (int64_t)fl - 1, {b, b + 1, (int64_t)fl - 1});
 				s.rangeB = b;
 				s.rangeE = e;
+				uint32_t shape = r.below(10);
+				if (shape == 0)
+				{
+					s.rangeOpen = true; // "bytes=b-": to the last byte
+					s.rangeE = (long)fl - 1;
+				}
+				else if (shape == 1)
+				{
+					s.rangeUnsat = true; // not satisfiable: must not be answered with a 2xx
+					s.rangeB = (long)fl + (long)r.below(3);
+					s.rangeE = s.rangeB + (long)r.below(10);
+				}
 			}
 		}
 	}
